@@ -265,7 +265,8 @@ def deserialize_address(address, encoding=None, network=None):
             checksum = double_sha256(key_hash)[0:4]
             if check != checksum and encoding == 'base58':
                 raise BKeyError("Invalid address %s, checksum incorrect" % address)
-            elif check == checksum:
+            elif check == checksum and len(address_bytes) == 25 and \
+                    base58encode(address_bytes).encode() == normalize_var(address):
                 address_prefix = key_hash[0:1]
                 networks_p2pkh = network_by_value('prefix_address', address_prefix.hex())
                 networks_p2sh = network_by_value('prefix_address_p2sh', address_prefix.hex())
